@@ -113,6 +113,8 @@ def check_effects(case):
                     raise Violation('equivalents_remain', f'after a pipeline ending in MergeEquivalentGates: {seen[t[lab]]} and {lab} have the same truth table')
                 seen[t[lab]] = lab
     nt = len(atoms) >= 2 and changed
+    if len(nl['inputs']) >= 7:
+        cls.add('inputs>=7')
     return {'nt': nt or (len(atoms) == 1 and changed), 'cls': cls | gen.classify(nl) | simp.netlist_twin_classes(nl),
             'key': [nl['inputs'], nl['gates'], nl['outputs'], spec],
             'sample': {'bench': build.bench_text(nl), 'pipeline': spec}}
@@ -132,5 +134,5 @@ SPEC = {
     'subs': [Sub('effects', lambda tier: simp.cases(tier, user_passes=True), check_effects, {'quick': 3000, 'thorough': 200000})],
     'required_classes': {'effects': ['pass:RRG', 'pass:RRG+rm', 'pass:MU', 'pass:MDG', 'pass:MEG', 'top:pipe',
                                      'top:comp', 'top:list', 'top:cleanup', 'adjacent_equal',
-                                     'adjacent_rrg_flags_differ', 'mu_all_negations', 'mu_all_buffers', 'declared_dependencies']},
+                                     'adjacent_rrg_flags_differ', 'mu_all_negations', 'mu_all_buffers', 'declared_dependencies', 'inputs>=7']},
 }
